@@ -95,7 +95,7 @@ func main() {
 	}
 	var jobs []job
 	if run.Quick() {
-		for _, c := range pickQuick(run.Rand("select"), all, 104) {
+		for _, c := range pickQuick(run.Rand("select"), all, 132) {
 			jobs = append(jobs, job{c, 0})
 			if staleShape(c) {
 				// the outcome of this shape depends on the order in which the tool visits the target's
@@ -166,7 +166,13 @@ func pickQuick(r *rand.Rand, all []combo, n int) []combo {
 		if staleShape(c) {
 			add(c)
 		}
-		if c.Restart == "cut" && c.Src == "same" {
+		if (c.Restart == "cut" || c.Restart == "cutmid") && c.Src == "same" {
+			add(c) // every base
+		}
+		if c.LoopCut && c.Src == "same" {
+			add(c)
+		}
+		if c.Base == "0" && c.Src == "same" && c.Backend == "disk" {
 			add(c)
 		}
 		if c.Pid == "nofields" && c.Cache == "natural" && (c.Src == "same" || c.Src == "failover-late") {
@@ -256,7 +262,7 @@ func oneCase(run *harness.Run, key string, c combo, tmp string, n int) {
 	// ---------------- first session: a natural full synchronisation
 	src1 := fakeredis.MustStart(fakeredis.Options{})
 	defer src1.Close()
-	src1.EnableSource(fakeredis.SourceConfig{ReplID: p.ID1, MasterReplOffset: p.B1, RDB: p.S1.RDB, Stamp: cr.psyncStamp,
+	src1.EnableSource(fakeredis.SourceConfig{ReplID: p.ID1, MasterReplOffset: p.B1, RDB: p.S1.RDB, Stamp: cr.psyncStamp, OnPsync: cr.onPsync,
 		HeartbeatsBeforeReply: r.Intn(2), HeartbeatsBeforeRDB: r.Intn(2)})
 	cache, err := cr.newCache(c.Backend, "cache1")
 	if err != nil {
@@ -265,8 +271,14 @@ func oneCase(run *harness.Run, key string, c combo, tmp string, n int) {
 	}
 	defer func() { cache.ch.Close() }()
 	cr.setCache(cache)
-	if c.Restart == "cut" {
-		cr.cutBeforeSetCheckpoint()
+	cutKind := c.Restart == "cut" || c.Restart == "cutmid"
+	switch {
+	case c.Restart == "cut":
+		cr.cutSnapshotReplay("setcp", 0)
+	case c.Restart == "cutmid":
+		cr.cutSnapshotReplay("restore", r.Intn(len(p.S1.Keys)))
+	case c.LoopCut:
+		cr.cutSnapshotReplay("loop", 0)
 	}
 	n0 := len(cr.tgt.Applied())
 	t1, err := cr.startTool(src1.Addr(), cache.ch)
@@ -278,7 +290,18 @@ func oneCase(run *harness.Run, key string, c combo, tmp string, n int) {
 	h1live := p.H1.prefix(p.ID1, p.L1End)
 	s1 := cr.phase(t1, src1, h1live, p.B1, p.End1, "a", 0, n0, 0, 0)
 	judgeFirst(run, key, p, h1live, s1, cache)
-	if c.Restart == "cut" {
+	if c.LoopCut {
+		cr.tgt.SetHooks(nil, nil, nil)
+	}
+	if cutKind {
+		if s1.Ended == "tool-exited" {
+			// the failing RESTORE ends the tool's run by itself; the cut has happened all the same
+			select {
+			case <-cr.abort:
+				s1.Ended = "cut"
+			default:
+			}
+		}
 		if s1.Ended != "cut" {
 			t1.stop()
 			run.Inconclusive("%s: the first session was not cut before its position was stored: %s", key, s1.Ended)
@@ -340,14 +363,20 @@ func oneCase(run *harness.Run, key string, c combo, tmp string, n int) {
 		}
 		nat := readPosition(cr.tgt)
 		cid, cl, crr, cro := cache.state([]string{p.ID1})
-		if c.Restart == "cut" {
-			// natural state: snapshot replayed, DelCheckpoint done, SetCheckpoint never executed
+		if cutKind && cid == "" && c.Backend == "disk" {
+			// what a restarted instance finds is what the directory holds: ask a fresh channel object
+			cache.reopen(cr.key)
+			cid, cl, crr, cro = cache.state([]string{p.ID1})
+		}
+		if cutKind {
+			// natural state: snapshot replayed, DelCheckpoint done, SetCheckpoint never executed / replay interrupted inside
 			cr.tgt.SetHooks(nil, nil, nil)
 			cr.abort = nil
 			if cid == "" && nat.Absent {
 				// the cache kept nothing (its snapshot was dropped when the scope closed and no log byte
 				// had arrived): the reconnect is judged with an empty cache
 				run.Count("natural_caches_that_lost_their_snapshot", 1)
+				run.Seen("empty_cache_after_cut", fmt.Sprintf("%s: files %v", c.Label(), listDir(cache.dir)))
 			} else if !nat.Absent || cid != p.ID1 || cl != p.B1 || crr < p.B1 || crr > p.L1End || (cro != p.B1 && cro != -1) {
 				run.Inconclusive("%s: state after the cut first session unexpected: pos %+v cache %s [%d,%d] rdb@%d", key, nat, short(cid), cl, crr, cro)
 				return
@@ -451,6 +480,17 @@ func oneCase(run *harness.Run, key string, c combo, tmp string, n int) {
 		}
 	}
 
+	if cutKind && pre.CacheID == "" && len(s2.Psync) > 0 {
+		// a stopped full sync may finish closing its snapshot file after Stop() has returned: what the
+		// tool really held is what it held when its first PSYNC of the reconnect reached the source
+		if o, ok := s2.Obs[s2.Psync[0].Stamp]; ok && o.CacheID != "" {
+			pre.CacheID, pre.CacheL, pre.CacheR, pre.CacheHist = o.CacheID, o.CacheLeft, o.CacheRight, p.H1
+			if o.CacheRo >= 0 {
+				pre.CacheSnap, pre.CacheRo = p.S1, o.CacheRo
+			}
+			run.Count("cache_state_taken_from_the_psync_time_observation", 1)
+		}
+	}
 	// ---------------- judge the reconnect
 	v := judge(p, pre, s2)
 	// the cache after the session: what it serves under the current id must be the current history
@@ -558,7 +598,7 @@ func oneCase(run *harness.Run, key string, c combo, tmp string, n int) {
 		run.Inconclusive("%s: the tool did not stop", key)
 	}
 	if len(s2.Psync) > 0 || s2.Ended == "refused" {
-		run.Distinct(fmt.Sprintf("%s|%s|%s|%s|%s|drop=%v|tfault=%s|idle=%v|%s", c.Src, posC, cacheC, c.Backend, c.Restart, c.Drop, c.TFault, c.Idle, v.Outcome))
+		run.Distinct(fmt.Sprintf("%s|%s|%s|%s|%s|drop=%v|tfault=%s|idle=%v|base=%s|loopcut=%v|%s", c.Src, posC, cacheC, c.Backend, c.Restart, c.Drop, c.TFault, c.Idle, c.Base, c.LoopCut, v.Outcome))
 	}
 	if len(v.Findings) == 0 && (s2.Ended == "sentinel" || s2.Ended == "idle-acked") {
 		run.Sample(map[string]any{"case": key, "constructed": p.Constructed, "position": posC, "cache": cacheC, "psync": psyncStrings(s2.Psync),
